@@ -9,7 +9,6 @@
 package btree
 
 import (
-	"github.com/esimov/gogu"
 	"golang.org/x/exp/constraints"
 )
 
@@ -28,6 +27,19 @@ type entry[K constraints.Ordered, V any] struct {
 type node[K constraints.Ordered, V any] struct {
 	children [maxChildren]entry[K, V]
 	m        int
+}
+
+// keyLess orders the keys of the tree. It is the < operator, except that a key which is not equal
+// to itself (a floating-point NaN) comes before every other key, as with cmp.Less of the standard
+// library: the < operator alone leaves such a key unordered with respect to all the others.
+func keyLess[K constraints.Ordered](a, b K) bool {
+	return a < b || (a != a && b == b)
+}
+
+// keyEqual tells if two keys occupy the same place in that order. It is the == operator, except that
+// two keys which are not equal to themselves are equal to each other, as with cmp.Compare.
+func keyEqual[K constraints.Ordered](a, b K) bool {
+	return a == b || (a != a && b != b)
 }
 
 // newNode instantiates a new node with no leaves.
@@ -78,14 +90,14 @@ func (n *node[K, V]) search(t *BTree[K, V], key K, height int) (V, bool) {
 	if height == 0 {
 		for i := 0; i < n.m; i++ {
 			// A removed entry is only a tombstone: it must not be reported as found.
-			if gogu.Equal(key, n.children[i].key) && !n.children[i].isRemoved {
+			if keyEqual(key, n.children[i].key) && !n.children[i].isRemoved {
 				return n.children[i].value, true
 			}
 		}
 	} else {
 		// internal node
 		for i := 0; i < n.m; i++ {
-			if i+1 == n.m || gogu.Less(key, n.children[i+1].key) {
+			if i+1 == n.m || keyLess(key, n.children[i+1].key) {
 				return n.children[i].next.search(t, key, height-1)
 			}
 		}
@@ -134,19 +146,19 @@ func (n *node[K, V]) insert(t *BTree[K, V], key K, val V, height int, isRemoved 
 	if height == 0 {
 		for j = 0; j < n.m; j++ {
 			// If the value already exists in the B-tree this will be overwritten.
-			if gogu.Equal(key, n.children[j].key) {
+			if keyEqual(key, n.children[j].key) {
 				n.children[j].value = val
 				// This signals that we are invoking the Put or Remove method.
 				n.children[j].isRemoved = isRemoved
 				return nil
-			} else if gogu.Less(key, n.children[j].key) {
+			} else if keyLess(key, n.children[j].key) {
 				break
 			}
 		}
 	} else {
 		// internal node
 		for j = 0; j < n.m; j++ {
-			if j+1 == n.m || gogu.Less(key, n.children[j+1].key) {
+			if j+1 == n.m || keyLess(key, n.children[j+1].key) {
 				node := n.children[j].next.insert(t, key, val, height-1, isRemoved)
 				if node == nil {
 					return nil
